@@ -1,6 +1,7 @@
 """Entry point for sleap_nn training."""
 
 import hydra
+from attrs import asdict
 from loguru import logger
 from pathlib import Path
 import numpy as np
@@ -122,23 +123,26 @@ def get_aug_config(intensity_aug, geometric_aug):
 def get_backbone_config(backbone_cfg):
     """Returns `BackboneConfig` object based on the user-provided parameters."""
     backbone_config = BackboneConfig()
+    # The preset classes only differ from the base classes in their default values.
+    # `BackboneConfig` is typed with the base classes, so the presets are converted
+    # to instances of those (otherwise the structured config rejects them).
     unet_config_mapper = {
         "unet": UNetConfig(),
-        "unet_medium_rf": UNetMediumRFConfig(),
-        "unet_large_rf": UNetLargeRFConfig(),
+        "unet_medium_rf": UNetConfig(**asdict(UNetMediumRFConfig())),
+        "unet_large_rf": UNetConfig(**asdict(UNetLargeRFConfig())),
     }
     convnext_config_mapper = {
         "convnext": ConvNextConfig(),
         "convnext_tiny": ConvNextConfig(),
-        "convnext_small": ConvNextSmallConfig(),
-        "convnext_base": ConvNextBaseConfig(),
-        "convnext_large": ConvNextLargeConfig(),
+        "convnext_small": ConvNextConfig(**asdict(ConvNextSmallConfig())),
+        "convnext_base": ConvNextConfig(**asdict(ConvNextBaseConfig())),
+        "convnext_large": ConvNextConfig(**asdict(ConvNextLargeConfig())),
     }
     swint_config_mapper = {
         "swint": SwinTConfig(),
         "swint_tiny": SwinTConfig(),
-        "swint_small": SwinTSmallConfig(),
-        "swint_base": SwinTBaseConfig(),
+        "swint_small": SwinTConfig(**asdict(SwinTSmallConfig())),
+        "swint_base": SwinTConfig(**asdict(SwinTBaseConfig())),
     }
     if isinstance(backbone_cfg, str):
         if backbone_cfg.startswith("unet"):
